@@ -1,6 +1,7 @@
 package c18
 
 import (
+	"verif/harness/pbt"
 	"pgregory.net/rapid"
 )
 
@@ -109,7 +110,7 @@ func genStepped(t *rapid.T) Case {
 	c := Case{IdleMs: genIdle(t), LegacyFirst: rapid.IntRange(0, 4).Draw(t, "legacy") == 0}
 	c.Tuples = genTuples(t, 25)
 	c.Subs = genSubs(t, len(c.Tuples))
-	steer := rapid.IntRange(0, 9).Draw(t, "steer") < 6
+	steer := rapid.IntRange(0, 9).Draw(t, "steer") < 6 && (pbt.IsKnown(fDialCtx) || pbt.IsKnown(fCancelWrite))
 	c.Steer = steer
 
 	n := len(c.Subs)
@@ -244,7 +245,7 @@ func genBurst(t *rapid.T) Case {
 	c := Case{Burst: true, IdleMs: genIdle(t), LegacyFirst: rapid.IntRange(0, 4).Draw(t, "legacy") == 0}
 	c.Tuples = genTuples(t, 20)
 	c.Subs = genSubs(t, len(c.Tuples))
-	steer := rapid.IntRange(0, 9).Draw(t, "steer") < 6
+	steer := rapid.IntRange(0, 9).Draw(t, "steer") < 6 && (pbt.IsKnown(fDialCtx) || pbt.IsKnown(fCancelWrite))
 	c.Steer = steer
 	perTuple := make([]int, len(c.Tuples))
 	for _, s := range c.Subs {
